@@ -142,6 +142,31 @@ def heap_typing(ctx, heap):
     return out
 
 
+_mn_cache = {}
+
+
+def _mentions(t, prefix):
+    key = (t.get_id(), prefix)
+    if key in _mn_cache:
+        return _mn_cache[key]
+    r = False
+    stack, seen = [t], set()
+    while stack:
+        x = stack.pop()
+        if x.get_id() in seen:
+            continue
+        seen.add(x.get_id())
+        if z3.is_app(x) and x.decl().name().startswith(prefix):
+            r = True
+            break
+        if z3.is_quantifier(x):
+            stack.append(x.body())
+        else:
+            stack.extend(x.children())
+    _mn_cache[key] = r
+    return r
+
+
 _hq_cache = {}
 
 
@@ -195,7 +220,14 @@ class Exec:
         goal = z3.simplify(goal) if isinstance(goal, z3.ExprRef) else z3.BoolVal(bool(goal))
         if z3.is_true(goal):
             return self.obls.append(Obligation(name, [], z3.BoolVal(True), kind, self.cur_line, text=text))
-        self.obls.append(Obligation(name, list(st.pc) + list(self.guards), goal, kind, self.cur_line, text=text))
+        ob = Obligation(name, list(st.pc) + list(self.guards), goal, kind, self.cur_line, text=text)
+        # relevance filter (first attempt only): axioms about the recursive wait-sum functions are dropped when the goal does not
+        # mention such a function; if that attempt does not discharge the obligation it is retried with everything
+        if not _mentions(goal, "wsum"):
+            light = [a for a in ob.assumptions if not (_has_quant(a) and _mentions(a, "wsum"))]
+            if len(light) < len(ob.assumptions):
+                ob.light = light
+        self.obls.append(ob)
 
     def safety(self, what, st, cond):
         self.oblige(f"safe@{self.cur_line}:{what}", st, cond, "safe", text=what)
@@ -510,6 +542,12 @@ class Exec:
             if e.attr == "LOGGER":
                 return Opaque("LOGGER")
         b = self.ev(e.value, st)
+        if isinstance(b, NoneV) and getattr(self, "in_spec", 0):
+            # spec expressions are total: a field of None is an arbitrary value (always guarded by an implication)
+            for cls, fields in self.ctx.schema.items():
+                if e.attr in fields:
+                    t = fields[e.attr]
+                    return wrap(fresh("undef", sort_of(t)), t, fresh("undef_isnone", B) if parse_type(t)[2] else None)
         if isinstance(b, EnumV) and e.attr == "value":
             vals = self.ctx.enum_values[b.enum]
             self.need(b, st, "enum")
@@ -1071,7 +1109,8 @@ class Exec:
                 if not has_call or len(n.generators) != 1 or n.generators[0].ifs and False:
                     return n
                 g = n.generators[0]
-                tmp = f"@comp{n.lineno}_{n.col_offset}"
+                names = ex.__dict__.setdefault("comp_names", {})
+                tmp = names.setdefault((ex.depth, n.lineno, n.col_offset), f"_comp{len(names)}")
                 body = ast.Expr(value=ast.Call(func=ast.Attribute(value=ast.Name(id=tmp, ctx=ast.Load()), attr="append", ctx=ast.Load()), args=[n.elt], keywords=[]))
                 if g.ifs:
                     test = g.ifs[0] if len(g.ifs) == 1 else ast.BoolOp(op=ast.And(), values=list(g.ifs))
@@ -1638,10 +1677,12 @@ class Exec:
     def spec_ev(self, src, st):
         node = ast.parse(src, mode="eval").body if isinstance(src, str) else src
         sil, self.silent = self.silent, True   # spec expressions generate no safety obligations
+        self.in_spec = getattr(self, "in_spec", 0) + 1
         try:
             return self.ev(node, st)
         finally:
             self.silent = sil
+            self.in_spec -= 1
 
     # ------------------------------------------------------------------ user calls (contracts / inlining)
     def do_user_call(self, node, st):
